@@ -1,4 +1,5 @@
 """C05 — parsing is total: any input yields an AST or a well-formed error, never a crash."""
+import os
 from lib import *
 import parsergraph
 import C01
@@ -38,28 +39,45 @@ def rule_cycle(G, E, R):
         if names == [PREC]:
             R.ok(rule, PREC, "precedence self-recursion (bounded by R05-prec)")
             continue
-        # structural descent over an AST node
+        # structural descent over an already built AST / value: every function on the cycle only *reads* nodes it was
+        # given (by reference), never builds one, and a direct recursive call passes a sub-node of its own argument
         structural = True
         why = ""
+        AST_REF = re.compile(r"^&(mut )?(ast|types|rhs_types|scheme|lhs_types|functions)::")
         for x in comp:
             m = G.insts[x]["mir"]
-            if m["arg_count"] < 1 or not re.match(r"^&(mut )?(ast|types|rhs_types|scheme|lhs_types)::", norm(m["locals"][1]["ty"])):
+            is_closure = m["kind"] == "Closure"
+            ptys = [norm(m["locals"][a]["ty"]) for a in range(1, m["arg_count"] + 1)]
+            if is_closure:
+                ptys = ptys[1:]
+            if not ptys or not all(AST_REF.match(t) for t in ptys):
                 structural = False
-                why = "%s does not take an AST/value node by reference" % G.name[x]
+                why = "%s takes %s, not (only) references to AST nodes" % (G.name[x], ptys)
                 break
+            builds = [s_["rv"].get("adt") for bl in m["blocks"] for s_ in bl["stmts"]
+                      if s_["k"] == "Assign" and s_["rv"]["k"] == "Aggregate" and str(s_["rv"].get("adt", "")).startswith("ast::")]
+            if builds:
+                structural = False
+                why = "%s constructs AST nodes (%s) while on a recursion cycle" % (G.name[x], sorted(set(builds))[:3])
+                break
+            if is_closure:
+                continue
             mm = Mir(m)
             fl = Flow(mm, through=r"(::index|::deref|::next|into_iter|as_ref|::iter|::first|::get|unwrap|::branch|clone)$")
             for bi, t in mm.calls():
                 tgt = [to for to, kind, bb in G.edges[x] if bb == bi and kind == "call"]
-                if not any(tt in comp for tt in tgt):
+                if not any(tt in comp and G.insts[tt]["mir"]["kind"] != "Closure" for tt in tgt):
                     continue
                 a0 = op_local(t["args"][0]) if t["args"] else None
                 srcs = fl.sources(a0) if a0 is not None else set()
-                roots = {s for s in srcs if s[0] == "arg"}
-                others = {s for s in srcs if s[0] not in ("arg",)}
-                if roots != {("arg", 1, None)} or any(s[0] == "call" for s in others):
+                roots = {s_ for s_ in srcs if s_[0] == "arg"}
+                if roots and not roots <= {("arg", a, None) for a in range(1, m["arg_count"] + 1)}:
                     structural = False
-                    why = "recursive call in %s is not on a sub-node of its own argument (%s)" % (G.name[x], sorted(map(str, srcs))[:4])
+                    why = "recursive call in %s is not on a sub-node of its own argument" % G.name[x]
+                calls_bad = {s_ for s_ in srcs if s_[0] == "call" and not re.search(r"(get_type|as_definition|return_type)$", str(s_[1]))}
+                if not roots and calls_bad:
+                    structural = False
+                    why = "recursive call in %s on a value of unknown origin (%s)" % (G.name[x], sorted(map(str, calls_bad))[:2])
         if structural:
             R.ok(rule, names[0], label + ": structural descent over an already built node", nontrivial=True)
         else:
@@ -139,6 +157,7 @@ def run(F, R, tier):
                 "3 logical operators => precedence recursion depth <= 3", str(len(a["variants"])))
     rule_span(E, R)
     rule_slice(E, R)
+    rule_panic(G, E, R)
     R.not_decided += ["the arithmetic behind three reviewed slice bounds in ParseError::new (frozen exceptions of R05-slice)",
                       "progress of every lexer loop (termination)", "arithmetic inside ParseError::new / Display",
                       "stack size in bytes"]
@@ -307,3 +326,100 @@ def rule_slice(E, R):
                     R.violation(rule, fn, label + " is not known to be a char boundary", why, ix["sp"])
     R.floor(rule, "str slicing sites", n, 15)
     return n
+
+
+# ----------------------------------------------------------------------------------------------
+# R05-panic: explicit panic sites reachable from the parser are within a reviewed allow-list
+
+
+
+def _is_some_conjunct_ok(E, fn):
+    """every `X.unwrap()` in fn is a later conjunct of an `&&` chain that has `X.is_some()` as an earlier conjunct"""
+    h = E.hir(fn)
+    if not h:
+        return False, "anchor not found"
+    uw = [c for c in exprs(h["body"], "MethodCall") if c["m"] == "unwrap" and norm(c.get("callee", "")) == "core::option::Option::unwrap"]
+    if not uw:
+        return True, "no unwrap left"
+
+    def conjuncts(e):
+        e = strip(e)
+        if e.get("k") == "Binary" and e["op"] == "And":
+            return conjuncts(e["l"]) + conjuncts(e["r"])
+        return [e]
+    ands = [b for b in exprs(h["body"], "Binary") if b["op"] == "And"]
+    for u in uw:
+        x = local_name(u["recv"])
+        ok = False
+        for a in ands:
+            cs = conjuncts(a)
+            for i, cj in enumerate(cs):
+                if any(n is u for n in walk(cj)):
+                    earlier = cs[:i]
+                    if any(e.get("k") == "MethodCall" and e["m"] == "is_some" and local_name(e["recv"]) == x for e in earlier):
+                        ok = True
+        if not ok:
+            return False, "`%s.unwrap()` is not guarded by an earlier `%s.is_some() &&`" % (x, x)
+    return True, "%d unwrap(s), each guarded by is_some() in the same && chain" % len(uw)
+
+
+def _literal_types_ok(E):
+    """RhsValue::lex_with / RhsValues::lex_with receive only Ip, Bytes, Int: constant arguments, or `lhs_type` inside the
+    arms admitted by R04-admit"""
+    bad = []
+    n = 0
+    for hb in E.hir_list:
+        if "body" not in hb or "::tests::" in norm(hb["path"]):
+            continue
+        for node, st in walk_arms(hb["body"]):
+            if node.get("k") not in ("Call", "MethodCall"):
+                continue
+            cal = norm(node.get("callee", ""))
+            if not cal.endswith("LexWith::lex_with") or "types::RhsValue" not in norm(node.get("ty", "")):
+                continue
+            n += 1
+            a = call_args(node)[-1]
+            d = def_path(a)
+            if d in ("types::Type::Ip", "types::Type::Bytes", "types::Type::Int"):
+                continue
+            if local_name(a) == "lhs_type":
+                tys = arm_variants(st, "Type")
+                if tys and set(tys) <= {"Ip", "Bytes", "Int"}:
+                    continue
+            bad.append("%s at %s" % (norm(hb["path"]), node["sp"]))
+    return (not bad and n >= 5), ("%d literal lexer calls, all with Ip/Bytes/Int" % n if not bad else "literal lexer called with an unrestricted type: %s" % bad)
+
+
+def rule_panic(G, E, R):
+    import json as _json
+    rule = "R05-panic"
+    spec = os.path.join(os.path.dirname(os.path.dirname(os.path.abspath(__file__))), "spec", "parser_panics.json")
+    with open(spec) as f:
+        allowed = {(a["function"], a["kind"]): a for a in _json.load(f)["allowed"]}
+    seen = {}
+    for i in sorted(G.reach):
+        v = G.insts[i]
+        if "mir" not in v:
+            continue
+        for k, w, c in panic_sites(v["mir"]):
+            seen.setdefault((G.name[i], k), []).append(w)
+    R.floor(rule, "explicit panic sites reachable from the parser", len(seen), 8)
+    guards = {}
+    for (fn, kind), where in sorted(seen.items()):
+        a = allowed.get((fn, kind))
+        label = "%s site" % kind
+        if not a:
+            R.violation(rule, fn, label, "an explicit panic is reachable from the parser entry points and is not in the reviewed list "
+                        "(spec/parser_panics.json): parsing must return an error, never panic", sorted(set(where))[0])
+            continue
+        g = a.get("guard")
+        if g == "is_some-conjunct":
+            ok, why = _is_some_conjunct_ok(E, fn)
+            R.check(ok, rule, fn, label + " (reviewed, guard re-checked)", why, sorted(set(where))[0])
+        elif g == "literal-types":
+            if "lt" not in guards:
+                guards["lt"] = _literal_types_ok(E)
+            ok, why = guards["lt"]
+            R.check(ok, rule, fn, label + " (reviewed, guard re-checked)", why, sorted(set(where))[0])
+        else:
+            R.ok(rule, fn, label + " (reviewed)", a["reason"], sorted(set(where))[0])
